@@ -34,6 +34,11 @@ check('C04', level='exploration', steps=[dict(src='drv/c04.c', variant='plain', 
             "non-trivial = L1 strings of >= 2 bytes containing a dot or hyphen (the structure rules are exercised); counted by the driver"),
       deadline=dict(quick=240, thorough=3000))
 
+check('C05', level='exploration', steps=[dict(src='drv/c05.c', variant='plain', name='literal')],
+      rule=("each generator emits every case once (token odometers 'raw' and 'in', structured v4/v6 products, byte-position sweeps); "
+            "non-trivial = odometer strings that start with '[' (raw) or contain ':' or '.' (bracket content) and have >= 3 bytes; counted by the driver"),
+      deadline=dict(quick=240, thorough=3000))
+
 # ---------------------------------------------------------------------------
 def load_findings():
     p = os.path.join(V, 'known_findings.json')
